@@ -140,8 +140,11 @@ def main(argv):
             print("unknown or unclaimed property %s" % p)
             return 2
         spec = REGISTRY[p]
+        extra = {}
+        if tier == "thorough":
+            extra = thorough_extras(p, ctx)
         results, violations, known_hits, lines = run_property(
-            p, spec["rules"], ctx, tier, "", spec["assumptions"], spec["explanation"], seed)
+            p, spec["rules"], ctx, tier, "", spec["assumptions"], spec["explanation"], seed, extra=extra)
         ob = sum(r.obligations for r in results)
         print("[%s] tier=%s rules=%d obligations=%d violations=%d known=%d facts=%s" % (
             p, tier, len(results), ob, len(violations), len(known_hits), ctx.prog.digest[:12]))
@@ -151,4 +154,52 @@ def main(argv):
             print(l)
         if violations:
             rc = 1
+        if extra.get("selftest_failed"):
+            print("CHECKER-SELFTEST-FAILED property=%s: %s" % (p, extra["selftest_failed"]))
+            rc = rc or 3
     return rc
+
+
+def thorough_extras(pid, ctx):
+    """thorough tier: (1) facts were re-extracted from scratch; (2) the verdicts are recomputed with a deeper
+    interprocedural origin bound and must agree; (3) the seeded corpus for this property is replayed in scratch
+    copies of /repo: every variant must compile and make its named rule fire."""
+    import time
+    from .context import Ctx as _C
+    from .framework import RuleResult
+    from . import selftest
+    extra = {}
+    t0 = time.time()
+    # (2) deeper bound
+    deep = _C.__new__(_C)
+    deep.__dict__.update(ctx.__dict__)
+    deep._og = {}
+    deep._pf = None
+    deep.__dict__.pop("_lk_edges", None)
+    deep.__dict__.pop("_held_entry", None)
+    base_depth = 6
+    deep.origins = lambda depth=3, _d=base_depth, _s=deep: _C.origins(_s, max(depth, _d) if depth else 0)
+    keys_deep = set()
+    keys_base = set()
+    for r in REGISTRY[pid]["rules"]:
+        for c_, acc in ((ctx, keys_base), (deep, keys_deep)):
+            try:
+                out = r(c_, "thorough")
+            except Exception as e:  # noqa
+                acc.add(("crash", getattr(r, "__name__", "?"), type(e).__name__))
+                continue
+            out = out if isinstance(out, list) else [out]
+            for rr in out:
+                for f in rr.findings:
+                    acc.add((rr.rule, f.key))
+    extra["deeper_origin_bound"] = {"depth": base_depth, "verdicts_agree": keys_base == keys_deep,
+                                    "only_at_depth_3": sorted(map(str, keys_base - keys_deep)), "only_at_depth_6": sorted(map(str, keys_deep - keys_base))}
+    # (3) seeded corpus
+    if os.environ.get("VERIF_NO_SELFTEST") != "1" and not os.environ.get("VERIF_FACTS_CACHE"):
+        rs = selftest.run(only_property=pid)
+        extra["seeded_corpus"] = [{"case": r["case"], "detected": r["ok"], "hit": r.get("hit"), "missed": r.get("missed"), "reason": r.get("reason"), "seconds": r["seconds"]} for r in rs]
+        missed = [r["case"] for r in rs if not r["ok"]]
+        if missed:
+            extra["selftest_failed"] = "seeded variants not detected: %s" % missed
+    extra["thorough_seconds"] = round(time.time() - t0, 1)
+    return extra
